@@ -11,7 +11,7 @@
 EXTENDS Naturals, Sequences, FiniteSets, TLC
 CONSTANTS MaxSend, Fixed11      \* Fixed11 = FALSE re-creates finding F11 (drained responses keep their bodies open)
 
-VARIABLES g,        \* send goroutines: Seq of [kind: "call"|"note"|"fail", st: "do"|"deliver"|"done"]
+VARIABLES g,        \* send goroutines: Seq of [kind: "call"|"note"|"fail"|"bad", st: "do"|"deliver"|"done"]  ("bad": a response whose status is neither 200 nor 204)
           nopen, nclosed,   \* response bodies opened / closed
           cli,      \* "set" | "nil"  (Channel.cli)
           closepc,  \* "none" | "drain" | "ret"
@@ -23,7 +23,8 @@ vars == <<g, nopen, nclosed, cli, closepc, recvpc, nrecv, neof, refused>>
 
 Init == g = <<>> /\ nopen = 0 /\ nclosed = 0 /\ cli = "set" /\ closepc = "none" /\ recvpc = "idle" /\ nrecv = 0 /\ neof = 0 /\ refused = 0
 
-Kinds == {"call", "note", "fail"}
+Kinds == {"call", "note", "fail", "bad"}
+HasBody(k) == k \in {"call", "bad"}      \* a response with a body that somebody has to close
 Send(k) == /\ Len(g) + refused < MaxSend
            /\ IF cli = "nil" THEN refused' = refused + 1 /\ UNCHANGED g          \* fails without issuing a request
               ELSE g' = Append(g, [kind |-> k, st |-> "do"]) /\ UNCHANGED refused
@@ -34,7 +35,7 @@ DoRet(i) == /\ i \in 1..Len(g) /\ g[i].st = "do"
             /\ IF g[i].kind = "note"
                THEN /\ nopen' = nopen + 1 /\ nclosed' = nclosed + 1                \* 204: closed at once, nothing delivered
                     /\ g' = [g EXCEPT ![i].st = "done"]
-               ELSE /\ nopen' = IF g[i].kind = "call" THEN nopen + 1 ELSE nopen
+               ELSE /\ nopen' = IF HasBody(g[i].kind) THEN nopen + 1 ELSE nopen
                     /\ nclosed' = nclosed
                     /\ g' = [g EXCEPT ![i].st = "deliver"]                         \* blocks on c.rsp <- ...
             /\ UNCHANGED <<cli, closepc, recvpc, nrecv, neof, refused>>
@@ -44,7 +45,7 @@ RecvStart == /\ recvpc = "idle" /\ nrecv + neof <= MaxSend /\ recvpc' = "wait"  
 \* the rendezvous: Recv takes the item of SOME delivering goroutine, reads and closes its body
 RecvTake(i) == /\ recvpc = "wait" /\ i \in 1..Len(g) /\ g[i].st = "deliver"
                /\ g' = [g EXCEPT ![i].st = "done"]
-               /\ nclosed' = IF g[i].kind = "call" THEN nclosed + 1 ELSE nclosed
+               /\ nclosed' = IF HasBody(g[i].kind) THEN nclosed + 1 ELSE nclosed      \* also when Recv reports the bad status as an error
                /\ nrecv' = nrecv + 1 /\ recvpc' = "idle"
                /\ UNCHANGED <<nopen, cli, closepc, neof, refused>>
 \* after Close has drained everything the response channel is closed: Recv reports EOF
@@ -57,7 +58,7 @@ CloseStart == /\ closepc = "none" /\ closepc' = "drain" /\ cli' = "nil"
 \* the drain loop competes with a pending Recv for delivering goroutines
 Drain(i) == /\ closepc = "drain" /\ i \in 1..Len(g) /\ g[i].st = "deliver"
             /\ g' = [g EXCEPT ![i].st = "done"]
-            /\ nclosed' = IF g[i].kind = "call" /\ Fixed11 THEN nclosed + 1 ELSE nclosed
+            /\ nclosed' = IF HasBody(g[i].kind) /\ Fixed11 THEN nclosed + 1 ELSE nclosed
             /\ UNCHANGED <<nopen, cli, closepc, recvpc, nrecv, neof, refused>>
 CloseRet == /\ closepc = "drain" /\ \A i \in 1..Len(g) : g[i].st = "done"
             /\ closepc' = "ret"
